@@ -469,7 +469,16 @@ def run_plan(ctx, pid, tier):
             jobs.append(j); meta.append(("grid", {}))
         for j in bias_jobs(tier, rnd):
             jobs.append(j); meta.append(("bias", {}))
-    log(f"[stage2] {len(jobs)} encoder histories prepared in {time.time()-t0:.1f}s")
+    # trace validation costs one TLC run per distinct vector of real constants: cap the number of traced vectors
+    cap, seen = (26 if quick else 160), set()
+    for j in jobs:
+        if j.get("trace") and j["writer"] in ("lzma2", "lzma1"):
+            k = json.dumps(E.job_consts(j), sort_keys=True)
+            if k not in seen and len(seen) >= cap and not j.get("bias"):
+                j["trace"] = 0
+            else:
+                seen.add(k)
+    log(f"[stage2] {len(jobs)} encoder histories prepared in {time.time()-t0:.1f}s ({len(seen)} distinct constant vectors traced)")
 
     # ---------------------------------------------------------------- run the real code
     t0 = time.time()
